@@ -144,14 +144,15 @@ class Aborted(Exception):
         self.kind, self.where, self.used = kind, where, used
 
 
-def metered(fn, budget: int, fingerprints: bool = False):
+def metered(fn, budget: int, fingerprints: bool = False, wall_limit: float = 0.0):
     """Run fn() under the work meter; returns (result, back_edges).  Raises Aborted."""
-    ctx = METER.call(budget, fingerprints)
+    ctx = METER.call(budget, fingerprints, wall_limit)
     try:
         with ctx:
             r = fn()
     except WorkBudgetExceeded as e:
-        raise Aborted("budget", str(e), ctx.used) from None
+        kind = "wallclock-guard" if str(e).startswith("wallclock-guard") else "budget"
+        raise Aborted(kind, str(e), ctx.used) from None
     except NoProgress as e:
         raise Aborted("no-progress", str(e), ctx.used) from None
     return r, ctx.used
